@@ -8,6 +8,7 @@ package main
 import (
 	"bufio"
 	"encoding/json"
+	"errors"
 	"fmt"
 	"os"
 	"sort"
@@ -35,10 +36,29 @@ func main() {
 		fmt.Fprintln(os.Stderr, "unknown command", os.Args[1])
 		os.Exit(2)
 	}
-	if err := f(os.Args[2:]); err != nil {
+	err := f(os.Args[2:])
+	layoutCleanup()
+	var sr *specRejectedError
+	if errors.As(err, &sr) {
+		// not a harness problem: the real parser refuses a rule text the specification gives a meaning to
+		fmt.Fprintln(os.Stderr, "SPEC-REJECTED:", sr.msg)
+		os.Exit(3)
+	}
+	if err != nil {
 		fmt.Fprintln(os.Stderr, "vh:", err)
 		os.Exit(2)
 	}
+}
+
+// specRejectedError: a pool or symbol rule, which every replay needs, is rejected by the real parser.  On the unchanged
+// tree this never happens (the pools are rendered from rules the specification defines and the renderer is checked);
+// when it does, the parser has changed what it accepts.
+type specRejectedError struct{ msg string }
+
+func (e *specRejectedError) Error() string { return e.msg }
+
+func rejectedErr(format string, a ...any) error {
+	return &specRejectedError{msg: fmt.Sprintf(format, a...)}
 }
 
 func seed() int64 {
